@@ -13,6 +13,7 @@ _pol_text = (
     "fixed_select_on_pinnedPos (the fixed code places the capstone on e1 and wins), "
     "placeWin_square_completes_road (soundness of findPlaceWins w.r.t. C02's road predicate: on every WFBoard position from ply 2 on, every reported square is an empty board square and the flat - and the capstone - "
     "on it is accepted when in reserve and yields WinDetails = road win of the mover and a Spec.RoadPath of the mover) and placeWins_select_wins (then Select returns that winning successor without a random draw), "
+    "select_mem_mayReturn (on any position an answer of Select lies in Policy.mayReturn, the set the tie checks real-stream runs against), "
     "rollout_total / rollout_total_default (rollout with either policy, any MaxRollout and threshold, the built-in evaluator (C18 eval_total): returns -1, 0 or 1 - no panic, no hang; at most MaxRollout Select calls), "
     "rollout_buffers (on buffer identities: a rollout ping-pongs between the clone and the policy's scratch buffer, never hands the policy its own scratch and touches no third buffer), "
     "mcts_move_legal_rollouts - the LIFT of mcts_move_legal: GetMove with the rollouts RUN (getMoveR: every rollout of every node reached, all drawing from one stream) instead of read from an oracle returns, for every "
